@@ -120,9 +120,9 @@ def r_curvature_means(cx):
 SORTS = ("sort", "sort_unstable", "sort_by", "sort_by_key", "sort_unstable_by", "sort_unstable_by_key", "sort_by_cached_key")
 
 
-@rule("R-DEDUP-SORTED", ["C11", "C16"])
+@rule("R-DEDUP-SORTED", ["C11"])
 def r_dedup_sorted(cx):
-    """`Vec::dedup*` removes *adjacent* repetitions only. Wherever the library de-duplicates a vector (to detect or to
+    """`Vec::dedup*` removes *adjacent* repetitions only. Wherever adapt, axisswap or unitconvert de-duplicate a vector (to detect or to
     remove repeated entries: duplicate axes, repeated names), a sort of the same vector dominates the call - otherwise
     only neighbouring duplicates are seen. (No such call exists on the reviewed tree: the rule is kept alive by a
     self-test mutant.)"""
@@ -131,6 +131,8 @@ def r_dedup_sorted(cx):
     for name in sorted(cx.f.lib["fns"]):
         if "::tests::" in name or name.endswith("::tests"):
             continue
+        if not name.startswith(("inner_op::adapt::", "inner_op::axisswap::", "inner_op::unitconvert::", "inner_op::units::")):
+            continue    # the operators C11 is about
         f = cx.f.fn(name)
         fns += 1
         calls = list(f.calls())
